@@ -437,6 +437,15 @@ def m_vec_ops(I, st, c, args, cont, depth, site):
     raise Inconclusive('vec op ' + op)
 
 
+@model(r'^<(std::borrow::)?Cow<.*> as (std::ops::)?(Deref|AsRef<.*>|Borrow<.*>)>::(deref|as_ref|borrow)$', 'Cow deref (payload tokens are carried by value)')
+def m_cow_deref(I, st, c, args, cont, depth, site):
+    v = I.deref(st, args[0]) if isinstance(args[0], Ref) else args[0]
+    if isinstance(v, Enum) and v.ty == 'Cow':
+        inner = v.f[0]
+        return cont(st, inner if isinstance(inner, Ref) else I.halloc(st, inner))
+    cont(st, args[0])
+
+
 @model(r'^<(Vec|Box)<.*> as (std::ops::)?(Deref|DerefMut|AsRef<.*>|AsMut<.*>|Borrow<.*>)>::(deref|deref_mut|as_ref|as_mut|borrow)$', 'Vec/Box deref')
 def m_deref(I, st, c, args, cont, depth, site):
     a = args[0]
@@ -592,6 +601,31 @@ def iter_next(I, st, it, depth, k):
                           lambda s: iter_next(I, s, IterVal('filter', inner, 0, clo=clo), depth, k))
             I.call_closure(st2, clo, [xr], after, depth)
         return iter_next(I, st, it.src, depth, k5)
+    if kind in ('skip_while', 'take_while'):
+        clo = it.kw['clo']
+        done = it.kw.get('done', False)
+
+        def k_sw(st2, inner, v):
+            if v is PANIC or v.variant == 'None':
+                return k(st2, IterVal(kind, inner, 0, clo=clo, done=done), v)
+            if done and kind == 'skip_while':
+                return k(st2, IterVal(kind, inner, 0, clo=clo, done=True), v)
+            x = v.f[0]
+            xr = I.halloc(st2, x)
+
+            def after(st3, r):
+                if r is PANIC:
+                    return k(st3, it, PANIC)
+                if kind == 'skip_while':
+                    fork_bool(I, st3, r, lambda s: iter_next(I, s, IterVal(kind, inner, 0, clo=clo, done=False), depth, k),
+                              lambda s: k(s, IterVal(kind, inner, 0, clo=clo, done=True), some(x)))
+                else:
+                    fork_bool(I, st3, r, lambda s: k(s, IterVal(kind, inner, 0, clo=clo, done=False), some(x)),
+                              lambda s: k(s, IterVal('owned', None, 0, items=()), none()))
+            I.call_closure(st2, clo, [xr], after, depth)
+        if done and kind == 'take_while':
+            return k(st, it, none())
+        return iter_next(I, st, it.src, depth, k_sw)
     if kind == 'filter_map':
         clo = it.kw['clo']
 
@@ -767,7 +801,7 @@ def m_skip(I, st, c, args, cont, depth, site):
     cont(st, IterVal(c.rsplit('::', 1)[1], to_iter(I, st, args[0]), 0, n=conc(args[1])))
 
 
-@model(r' as (std::iter::)?Iterator>::(map|filter|filter_map|flat_map)::<', 'Iterator::map|filter|filter_map|flat_map')
+@model(r' as (std::iter::)?Iterator>::(map|filter|filter_map|flat_map|skip_while|take_while)::<', 'Iterator::map|filter|filter_map|flat_map|skip_while|take_while')
 def m_map(I, st, c, args, cont, depth, site):
     op = re.search(r'Iterator>::(\w+)::<', c).group(1)
     cont(st, IterVal(op, to_iter(I, st, args[0]), 0, clo=args[1]))
@@ -1622,3 +1656,48 @@ def m_res_and_then(I, st, c, args, cont, depth, site):
     if v.variant == 'Err':
         return cont(st, v)
     I.call_closure(st, args[1], [v.f[0]], cont, depth)
+
+
+@model(r'^(core|std)::slice::<impl \[.*\]>::partition_point::<', 'slice::partition_point (contract on a partitioned slice: index of the first element for which the predicate is false; left-to-right scan)')
+def m_partition_point(I, st, c, args, cont, depth, site):
+    r, v = vec_at(I, st, args[0])
+    n = len(v.items)
+
+    def step(i, st):
+        if i >= n:
+            return cont(st, usize(n))
+
+        def got(s2, b):
+            if b is PANIC:
+                return cont(s2, PANIC)
+            fork_bool(I, s2, b, lambda s3: step(i + 1, s3), lambda s3: cont(s3, usize(i)))
+        I.call_closure(st, args[1], [elem_ref(r, i)], got, depth)
+    step(0, st)
+
+
+@model(r'^(core|std)::slice::<impl \[.*\]>::(binary_search_by_key|binary_search_by|binary_search)(::<.*>)?$', 'slice::binary_search* (contract on a sorted slice: Ok(i) of an equal element, else Err(insertion point); evaluated by a left-to-right scan)')
+def m_binary_search(I, st, c, args, cont, depth, site):
+    op = re.search(r'\]>::(\w+)', c).group(1)
+    r, v = vec_at(I, st, args[0])
+    n = len(v.items)
+
+    def step(i, st):
+        if i >= n:
+            return cont(st, err(usize(n)))
+
+        def decided(st2, res):
+            # res: ordering of element i relative to the target
+            if res == 'Equal':
+                return cont(st2, ok(usize(i)))
+            if res == 'Less':
+                return step(i + 1, st2)
+            cont(st2, err(usize(i)))
+        if op == 'binary_search_by':
+            I.call_closure(st, args[1], [elem_ref(r, i)], lambda s2, o: cont(s2, PANIC) if o is PANIC else decided(s2, o.variant), depth)
+        elif op == 'binary_search_by_key':
+            key = I.deref(st, args[1]) if isinstance(args[1], Ref) else args[1]
+            I.call_closure(st, args[2], [elem_ref(r, i)], lambda s2, kv: cont(s2, PANIC) if kv is PANIC else cmp_values(I, s2, kv, key, depth, decided), depth)
+        else:
+            key = I.deref(st, args[1]) if isinstance(args[1], Ref) else args[1]
+            cmp_values(I, st, elem_ref(r, i), key, depth, decided)
+    step(0, st)
